@@ -4802,6 +4802,40 @@ def _shaped_catches(self, fi, handler, esc):
 ShapedEscapes._catches = _shaped_catches
 
 
+def _value_types(ea, fi, e, depth=0):
+    """Classes of the program an expression may evaluate to: the engine's inference, extended by `a or B()` / `a and b`
+    (either operand), conditional expressions, and attributes whose writers (`self.attr = <value>` in the methods of the
+    receiver's class and its bases) are such expressions.  The engine's closed-world convention for typed receivers
+    applies: a value handed in by the application (an un-annotated parameter) contributes nothing."""
+    if depth > 4:
+        return set()
+    got = set(ea.res.infer(fi, e))
+    if got:
+        return got
+    if isinstance(e, ast.BoolOp):
+        out = set()
+        for v in e.values:
+            out |= _value_types(ea, fi, v, depth + 1)
+        return out
+    if isinstance(e, ast.IfExp):
+        return _value_types(ea, fi, e.body, depth + 1) | _value_types(ea, fi, e.orelse, depth + 1)
+    if isinstance(e, ast.Attribute):
+        out = set()
+        for b in sorted(_value_types(ea, fi, e.value, depth + 1)):
+            for k in ea.prog.mro(b):
+                ci = ea.prog.classes.get(k)
+                if ci is None:
+                    continue
+                for m in ci.methods.values():
+                    for n in _walk_own(m.node):
+                        if isinstance(n, (ast.Assign, ast.AnnAssign)) and n.value is not None:
+                            for t in (n.targets if isinstance(n, ast.Assign) else [n.target]):
+                                if isinstance(t, ast.Attribute) and t.attr == e.attr and chain(t.value) == "self":
+                                    out |= _value_types(ea, m, n.value, depth + 1)
+        return out
+    return set()
+
+
 def _shaped_call(self, fi, call, shape, st):
     """`p = functools.partial(f, a.., k=..)` ... `p(b.., k2=..)` (or the partial called directly) is the call
     `f(a.., b.., k=.., k2=..)`: the engine would treat the local name as an unknown external callable and not look
@@ -4841,6 +4875,24 @@ def _shaped_call(self, fi, call, shape, st):
                         extra.add(_Esc("AttributeError", fi.short, call.lineno, "%s  [name %r]" % (_stmt_text(call, 60), nme)))
             if extra:
                 return extra | _EscapeAnalysis._call(self, fi, call, shape, st)
+    if isinstance(g, ast.Call) and isinstance(g.func, ast.Name) and g.func.id == "type" and len(g.args) == 1 and not g.keywords and not (isinstance(g.args[0], ast.Name) and g.args[0].id == "self"):
+        # `type(x)(...)`: a new instance of the class of x (the engine knows `type(self)(...)` only).  With the classes x
+        # can be an instance of inferred from the program, this is the constructor of one of them or of a subclass;
+        # otherwise the call stays unresolved.
+        types = _value_types(self, fi, g.args[0])
+        if types:
+            classes = []
+            for t in sorted(types):
+                for c_ in [t] + sorted(self.prog.subclasses(t)):
+                    if c_ not in classes:
+                        classes.append(c_)
+            out = set()
+            for c_ in classes:
+                for callee, sc in self.res.ctor_funcs(c_):
+                    self.resolved_edges += 1
+                    out |= {e.with_via(fi.short) for e in self.escapes(callee, self.shape_for(fi, call, callee), sc)}
+            self.lemmas_used.append("T %s: instantiates %s" % (_stmt_text(call, 60), ", ".join(c_.split(".")[-1] for c_ in classes)))
+            return out
     unknown_local = False
     if isinstance(g, ast.Name) and cur is not None and len(cur) > 2 and fi is self._cur_fi:
         fs = (cur[2].get(id(call)) or {}).get("func")
@@ -5108,3 +5160,255 @@ def inline_walrus(sx, exprs):
             e = _Subst(env, {}).visit(e)
         out.append(sx.subst(e, {}))
     return out
+
+
+# ---------------------------------------------------------------------------------------------------------------------
+# Collections of per-item elements as they look from outside (C06.c: the cache key must keep every INSTANCE of a repeated
+# option, in order).  A collection is built with one element per item of some base iteration (the options of a message);
+# what arrives in the function's result depends on the kind of the collection and on every conversion on the way:
+#   seq  list / tuple / generator / deque: one element per item, in order                      -> nothing is lost
+#   set  set / frozenset: equal elements are one, the order is gone
+#   map  dict keyed by K: of the items with an equal K only the last survives; .items() / .values() / .keys() / plain
+#        iteration are sequences of (K, V) / V / K with that loss
+# `sorted(X)` keeps the elements but not their order.
+
+
+SEQ_CONVERSIONS = ("tuple", "list", "iter", "reversed", "collections.deque", "deque")
+SET_CONVERSIONS = ("set", "frozenset")
+MAP_CONVERSIONS = ("dict", "collections.OrderedDict", "OrderedDict")
+
+
+class CollView:
+    """elt: the element contributed per item (None while `is_map`: then k / v); collapse: the expressions by whose
+    equality several items have been merged into one (empty: every item has its own element); ordered: the elements are
+    still in the order of the base iteration; opaque: a conversion the rule does not interpret was applied (text)."""
+
+    __slots__ = ("elt", "k", "v", "is_map", "collapse", "ordered", "opaque")
+
+    def __init__(self, elt=None, k=None, v=None, is_map=False, collapse=(), ordered=True, opaque=None):
+        self.elt, self.k, self.v, self.is_map, self.collapse, self.ordered, self.opaque = elt, k, v, is_map, tuple(collapse), ordered, opaque
+
+    @staticmethod
+    def seq(elt):
+        return CollView(elt=elt)
+
+    @staticmethod
+    def set_(elt):
+        return CollView(elt=elt, collapse=(elt,), ordered=False)
+
+    @staticmethod
+    def map_(k, v):
+        return CollView(k=k, v=v, is_map=True, collapse=(k,))
+
+    def but(self, **kw):
+        c = CollView(self.elt, self.k, self.v, self.is_map, self.collapse, self.ordered, self.opaque)
+        for a, b in kw.items():
+            setattr(c, a, b if a != "collapse" else tuple(b))
+        return c
+
+    def iterated(self):
+        """what iterating the collection yields"""
+        if self.is_map:
+            return self.but(elt=self.k, k=None, v=None, is_map=False)
+        return self
+
+    def as_set(self):
+        it = self.iterated()
+        return it.but(collapse=it.collapse + (it.elt,), ordered=False)
+
+    def as_map(self):
+        """dict(X): X a mapping, or a collection of pairs"""
+        if self.is_map:
+            return self
+        e = self.elt
+        if isinstance(e, ast.Tuple) and len(e.elts) == 2 and not any(isinstance(x, ast.Starred) for x in e.elts):
+            return CollView(k=e.elts[0], v=e.elts[1], is_map=True, collapse=self.collapse + (e.elts[0],), ordered=self.ordered)
+        return None
+
+    def final(self):
+        """the collection used as a value itself: a mapping compares as its set of items"""
+        if self.is_map:
+            return self.but(elt=ast.Tuple(elts=[self.k, self.v], ctx=ast.Load()), k=None, v=None, is_map=False, ordered=False)
+        return self
+
+
+def kind_of_container(e):
+    """'seq' | 'set' | 'map' | None for the expression that created a local collection (as the executor keeps it: grown
+    displays, `<changed>(x)` after an operation it does not model)"""
+    while isinstance(e, ast.Call) and isinstance(e.func, ast.Name) and e.func.id == "<changed>" and e.args:
+        e = e.args[0]
+    if isinstance(e, (ast.List, ast.ListComp)):
+        return "seq"
+    if isinstance(e, (ast.Set, ast.SetComp)):
+        return "set"
+    if isinstance(e, (ast.Dict, ast.DictComp)):
+        return "map"
+    if isinstance(e, ast.Call):
+        fn = chain(e.func) or ""
+        if fn in ("list", "collections.deque", "deque", "bytearray"):
+            return "seq"
+        if fn in SET_CONVERSIONS:
+            return "set"
+        if fn in MAP_CONVERSIONS or fn.split(".")[-1] == "defaultdict":
+            return "map"
+    return None
+
+
+def _parents(tree):
+    par = {}
+    for n in ast.walk(tree):
+        for c in ast.iter_child_nodes(n):
+            par[id(c)] = n
+    return par
+
+
+def lift_view(view, node, parents):
+    """Apply to `view` (the collection that the expression `node` evaluates to) every conversion around `node` that the
+    rule understands, outwards.  -> (view, outermost node reached).  Stops at the first construct that is not a
+    conversion of the collection (a tuple display it is a component of, an argument of some other call, ...)."""
+    cur = node
+    for _ in range(24):
+        par = parents.get(id(cur))
+        if par is None or view is None:
+            break
+        if isinstance(par, ast.Call) and len(par.args) >= 1 and par.args[0] is cur and not isinstance(cur, ast.Starred):
+            fn = chain(par.func) or ""
+            if len(par.args) == 1 and not par.keywords:
+                if fn in SEQ_CONVERSIONS:
+                    view, cur = view.iterated(), par
+                    continue
+                if fn in SET_CONVERSIONS:
+                    view, cur = view.as_set(), par
+                    continue
+                if fn in MAP_CONVERSIONS:
+                    m = view.as_map()
+                    if m is None:
+                        view = view.but(opaque=txt(par))
+                        break
+                    view, cur = m, par
+                    continue
+            if fn == "sorted" and len(par.args) == 1:
+                view = view.iterated()
+                if any(k.arg == "key" for k in par.keywords):
+                    # a stable sort by a key may keep the order of equal-keyed elements: not interpreted
+                    view = view.but(opaque=txt(par))
+                    break
+                view, cur = view.but(ordered=False), par
+                continue
+            break
+        if isinstance(par, ast.Attribute) and par.value is cur:
+            gp = parents.get(id(par))
+            if isinstance(gp, ast.Call) and gp.func is par and not gp.args and not gp.keywords:
+                if view.is_map and par.attr in ("items", "values", "keys"):
+                    elt = {"items": ast.Tuple(elts=[view.k, view.v], ctx=ast.Load()), "values": view.v, "keys": view.k}[par.attr]
+                    view, cur = view.but(elt=elt, k=None, v=None, is_map=False), gp
+                    continue
+                if par.attr == "copy":
+                    cur = gp
+                    continue
+            break
+        if isinstance(par, ast.Starred) and par.value is cur:
+            gp = parents.get(id(par))
+            if isinstance(gp, (ast.Tuple, ast.List)):
+                view = view.iterated()
+                if len(gp.elts) == 1:
+                    cur = gp
+                    continue
+                break
+            if isinstance(gp, ast.Set):
+                view = view.as_set()
+                if len(gp.elts) == 1:
+                    cur = gp
+                    continue
+            break
+        if isinstance(par, ast.BinOp) and isinstance(par.op, (ast.Add, ast.BitOr)):
+            # concatenation / union with something else: the elements of this collection are all still there
+            cur = par
+            continue
+        if isinstance(par, ast.comprehension) and par.iter is cur and not par.ifs and not par.is_async:
+            comp = parents.get(id(par))
+            if isinstance(comp, (ast.ListComp, ast.GeneratorExp, ast.SetComp, ast.DictComp)) and len(comp.generators) == 1:
+                it = view.iterated()
+                env = None
+                if isinstance(par.target, ast.Name):
+                    env = {par.target.id: it.elt}
+                elif isinstance(par.target, (ast.Tuple, ast.List)) and isinstance(it.elt, ast.Tuple) and len(par.target.elts) == len(it.elt.elts) and all(isinstance(t, ast.Name) for t in par.target.elts):
+                    env = {t.id: x for t, x in zip(par.target.elts, it.elt.elts)}
+                if env is None:
+                    view = view.but(opaque=txt(comp))
+                    break
+                sub = lambda e: _Subst(env, {}).visit(e)  # noqa: E731
+                if isinstance(comp, ast.DictComp):
+                    view = CollView(k=sub(comp.key), v=sub(comp.value), is_map=True, collapse=it.collapse + (sub(comp.key),), ordered=it.ordered)
+                elif isinstance(comp, ast.SetComp):
+                    view = it.but(elt=sub(comp.elt)).as_set()
+                else:
+                    view = it.but(elt=sub(comp.elt))
+                cur = comp
+                continue
+            break
+        break
+    return view, cur
+
+
+def views_at_result(path, view, node, tree_name, depth=0):
+    """Follow a collection from the expression `node` -- inside the returned expression (`tree_name` None) or inside the
+    creating expression of the local object `tree_name` -- to the function's result, through the local objects it is
+    converted into on the way.  -> list of final CollViews (empty: the collection does not reach the result)."""
+    tree = path.ret if tree_name is None else path.objs.get(tree_name)
+    if tree is None or depth > 4:
+        return []
+    view, top = lift_view(view, node, _parents(tree))
+    if view is None:
+        return []
+    if tree_name is None:
+        return [view.final()]
+    occ = _name_occurrences(path, tree_name)
+    if not occ:
+        return []
+    if view.opaque or top is not tree:
+        # only a component of the local object, or converted in a way the rule does not interpret: as far as it is followed
+        return [view.final()]
+    out = []
+    for tn, n in occ:
+        out.extend(views_at_result(path, view, n, tn, depth + 1))
+    return out
+
+
+def container_views_at_result(path, view, name):
+    """the same for a collection that IS the local object `name` (filled by statements)"""
+    out = []
+    for tn, n in _name_occurrences(path, name):
+        out.extend(views_at_result(path, view, n, tn, 1))
+    return out
+
+
+def _name_occurrences(path, name):
+    """(tree name, Name node) for every use of the local object `name` in the result or in another local object"""
+    out = []
+    trees = [(None, path.ret)] + [(k, v) for k, v in path.objs.items() if k != name]
+    for tn, t in trees:
+        if t is None:
+            continue
+        for n in ast.walk(t):
+            if isinstance(n, ast.Name) and n.id == name:
+                out.append((tn, n))
+    return out
+
+
+def function_of_fields(e, item_name, fields):
+    """Is the value of `e` determined by the given fields of the item (`item.number`, `item.value`) -- no other name, and
+    the item itself only through these fields?  Two items that agree in the fields then agree in e."""
+    par = _parents(e)
+    for n in ast.walk(e):
+        if not isinstance(n, ast.Name):
+            continue
+        p = par.get(id(n))
+        if n.id == item_name:
+            if not (isinstance(p, ast.Attribute) and p.value is n and p.attr in fields):
+                return False
+            continue
+        # a method of such a field (`item.number.is_x()`) is not a name; any other name (a counter, id, enumerate index)
+        # may tell two items apart
+        return False
+    return True
